@@ -120,14 +120,47 @@ class MemorySpaceCastOp(Operation):
 
 
 class SubviewOp(Operation):
-    """structure only (never constructed by contracts so far)"""
+    """structure: source, dynamic offsets / sizes / strides as operands, the static lists as DenseArrayBase-like objects
+    (DYNAMIC_INDEX marks an entry given by the next dynamic operand); the result carries no run-time pointer"""
 
-    def __init__(self, source, result_type):
-        self._init_op([source], [None], [result_type])
+    def __init__(self, source, result_type, offsets=(), sizes=(), strides=(), static_offsets=(), static_sizes=(), static_strides=()):
+        self._init_op([source] + list(offsets) + list(sizes) + list(strides), [None], [result_type])
+        self._n = (len(list(offsets)), len(list(sizes)), len(list(strides)))
+        self.static_offsets = _Static(static_offsets)
+        self.static_sizes = _Static(static_sizes)
+        self.static_strides = _Static(static_strides)
+        self.results[0].rt_ptr = None
 
     @property
     def source(self):
         return self.operands[0]
+
+    @property
+    def offsets(self):
+        return tuple(self.operands[1:1 + self._n[0]])
+
+    @property
+    def sizes(self):
+        return tuple(self.operands[1 + self._n[0]:1 + self._n[0] + self._n[1]])
+
+    @property
+    def strides(self):
+        return tuple(self.operands[1 + self._n[0] + self._n[1]:])
+
+    @property
+    def result(self):
+        return self.results[0]
+
+
+class _Static:
+    def __init__(self, data):
+        self.data = tuple(data)
+
+    def get_values(self):
+        return self.data
+
+    def iter_values(self):
+        return iter(self.data)
 
 
 class GlobalOp(Operation):
